@@ -1,1 +1,462 @@
-// harnesses for dir (included into /repo/src/dir.rs under cfg(kani))
+// Harnesses for src/dir.rs (C03, C04, C15, C16, C17, C19). Included as `crate::dir::verif` under cfg(kani).
+use super::*;
+use crate::verif_support::dev::TotDev;
+use crate::verif_support::spec;
+
+#[cfg(feature = "lfn")]
+pub(crate) fn lfn_buffer_from(units: &[u16]) -> LfnBuffer { LfnBuffer::from_ucs2_units(units.iter().copied()) }
+
+// ------------------------------------------------------------------------------------------- checksum, paths
+
+/// C16/C03: the long-name checksum is the specification's rotate-right-and-add over the 11 short-name bytes.
+#[kani::proof]
+#[kani::unwind(14)]
+fn lfn_checksum_spec() {
+    let sfn: [u8; SFN_SIZE] = kani::any();
+    assert!(lfn_checksum(&sfn) == spec::lfn_checksum(&sfn));
+}
+
+/// C01 (unit): split_path strips surrounding slashes and splits at the first inner slash.
+#[kani::proof]
+#[kani::unwind(10)]
+#[kani::stub(core::slice::memchr::memchr, crate::verif_support::stubs::memchr)]
+#[kani::stub(core::slice::memchr::memrchr, crate::verif_support::stubs::memrchr)]
+fn split_path_spec() {
+    let b: [u8; 6] = kani::any();
+    let len: usize = kani::any();
+    kani::assume(len <= 6);
+    let mut i = 0;
+    while i < 6 { kani::assume(b[i] == b'/' || b[i] == b'a' || b[i] == b'.'); i += 1; }
+    let path = unsafe { core::str::from_utf8_unchecked(&b[..len]) };
+    let (first, rest) = split_path(path);
+    // reference: skip leading slashes, component up to the next slash, remainder up to (excluding) trailing slashes
+    let mut s = 0;
+    while s < len && b[s] == b'/' { s += 1; }
+    let mut e = len;
+    while e > s && b[e - 1] == b'/' { e -= 1; }
+    let mut m = s;
+    while m < e && b[m] != b'/' { m += 1; }
+    assert!(first.as_bytes() == &b[s..m]);
+    match rest {
+        None => assert!(m == e),
+        Some(r) => { assert!(m < e); assert!(r.as_bytes() == &b[m + 1..e]); }
+    }
+    kani::cover!(rest.is_some() && s > 0 && e < len);
+    kani::cover!(first.is_empty());
+}
+
+// ------------------------------------------------------------------------------------------- name validation (C15)
+
+fn spec_char_ok(c: u32) -> bool {
+    if c >= 0x80 { return c <= 0xFFFF; }
+    let b = c as u8;
+    (b >= b'a' && b <= b'z') || (b >= b'A' && b <= b'Z') || (b >= b'0' && b <= b'9')
+        || matches!(b, b'$' | b'%' | b'\'' | b'-' | b'_' | b'@' | b'~' | b'`' | b'!' | b'(' | b')' | b'{' | b'}' | b'.' | b' ' | b'+'
+                       | b',' | b';' | b'=' | b'[' | b']' | b'^' | b'#' | b'&')
+}
+
+/// C15: validate_long_name on every UTF-8 string of up to 4 bytes: accepted exactly when non-empty and every
+/// character is in the documented long-name set; the error kind is the documented one; never panics.
+#[kani::proof]
+#[kani::unwind(8)]
+fn validate_name_chars() {
+    let b: [u8; 4] = kani::any();
+    let len: usize = kani::any();
+    kani::assume(len <= 4);
+    let name = match core::str::from_utf8(&b[..len]) { Ok(s) => s, Err(_) => { kani::assume(false); return; } };
+    let r = validate_long_name::<()>(name);
+    // independent decode of the (already validated) UTF-8
+    let mut all_ok = true;
+    let mut i = 0;
+    let mut n_chars = 0;
+    while i < len {
+        let b0 = b[i] as u32;
+        let (c, l) = if b0 < 0x80 { (b0, 1) }
+            else if b0 < 0xE0 { (((b0 & 0x1F) << 6) | (b[i + 1] as u32 & 0x3F), 2) }
+            else if b0 < 0xF0 { (((b0 & 0x0F) << 12) | ((b[i + 1] as u32 & 0x3F) << 6) | (b[i + 2] as u32 & 0x3F), 3) }
+            else { (((b0 & 0x07) << 18) | ((b[i + 1] as u32 & 0x3F) << 12) | ((b[i + 2] as u32 & 0x3F) << 6) | (b[i + 3] as u32 & 0x3F), 4) };
+        if !spec_char_ok(c) { all_ok = false; }
+        i += l;
+        n_chars += 1;
+    }
+    match r {
+        Ok(()) => assert!(len > 0 && all_ok),
+        Err(Error::InvalidFileNameLength) => assert!(len == 0),
+        Err(Error::UnsupportedFileNameCharacter) => assert!(len > 0 && !all_ok),
+        Err(_) => assert!(false),
+    }
+    kani::cover!(r.is_ok() && n_chars == 1 && len == 3);      // a BMP character
+    kani::cover!(r.is_err() && len == 4 && n_chars == 1);      // an astral character is rejected
+    kani::cover!(r.is_ok() && b[0] == b'.' && len == 1);
+}
+
+/// C15: the length rule is exact: names of 1..=255 bytes are accepted, 0 and 256..=300 rejected with the
+/// name-length error.
+#[kani::proof]
+#[kani::unwind(302)]
+fn validate_name_length() {
+    let buf = [b'a'; 300];
+    let len: usize = kani::any();
+    kani::assume(len <= 300);
+    let name = unsafe { core::str::from_utf8_unchecked(&buf[..len]) };
+    match validate_long_name::<()>(name) {
+        Ok(()) => assert!(len >= 1 && len <= 255),
+        Err(Error::InvalidFileNameLength) => assert!(len == 0 || len > 255),
+        Err(_) => assert!(false),
+    }
+    kani::cover!(len == 255);
+    kani::cover!(len == 256);
+}
+
+// ------------------------------------------------------------------------------------------- short names (C15, C16)
+
+fn sfn_byte_legal(b: u8) -> bool {
+    (b >= b'A' && b <= b'Z') || (b >= b'0' && b <= b'9')
+        || matches!(b, b'!' | b'#' | b'$' | b'%' | b'&' | b'\'' | b'(' | b')' | b'-' | b'@' | b'^' | b'_' | b'`' | b'{' | b'}' | b'~')
+}
+
+/// An 11-byte alias is legal: upper case / digits / allowed punctuation, base non-empty, padding only at the end of
+/// base and extension (no leading or embedded space), no dot, not a deleted/end marker.
+fn alias_legal(a: &[u8; 11]) -> bool {
+    if a[0] == b' ' || a[0] == 0xE5 || a[0] == 0 { return false; }
+    let mut seen_pad = false;
+    let mut i = 0;
+    while i < 8 {
+        if a[i] == b' ' { seen_pad = true; } else { if seen_pad || !sfn_byte_legal(a[i]) { return false; } }
+        i += 1;
+    }
+    seen_pad = false;
+    while i < 11 {
+        if a[i] == b' ' { seen_pad = true; } else { if seen_pad || !sfn_byte_legal(a[i]) { return false; } }
+        i += 1;
+    }
+    true
+}
+
+fn any_name<const N: usize>(buf: &[u8; N], len: usize) -> Option<&str> {
+    core::str::from_utf8(&buf[..len]).ok()
+}
+
+/// C15: deriving the short-name state from ANY UTF-8 string of up to 5 bytes (empty, multi-byte first character,
+/// only dots/spaces, ...) never panics.
+#[kani::proof]
+#[kani::unwind(8)]
+#[kani::stub(core::slice::memchr::memchr, crate::verif_support::stubs::memchr)]
+#[kani::stub(core::slice::memchr::memrchr, crate::verif_support::stubs::memrchr)]
+fn sng_new_total() {
+    let b: [u8; 5] = kani::any();
+    let len: usize = kani::any();
+    kani::assume(len <= 5);
+    let name = match any_name(&b, len) { Some(s) => s, None => { kani::assume(false); return; } };
+    let g = ShortNameGenerator::new(name);
+    assert!(g.basename_len <= 8);
+    kani::cover!(len == 0);
+    kani::cover!(len >= 2 && b[0] >= 0xC2);
+    kani::cover!(len == 3 && b[0] == b'.' && b[1] == b'.');
+}
+
+fn any_accepted_name(b: &[u8; 8], len: usize) -> &str {
+    // names that pass validate_long_name (ASCII subset + arbitrary 2-byte UTF-8), 1..=8 bytes
+    let name = match core::str::from_utf8(&b[..len]) { Ok(s) => s, Err(_) => { kani::assume(false); "" } };
+    kani::assume(validate_long_name::<()>(name).is_ok());
+    name
+}
+
+fn any_gen_state(g: &mut ShortNameGenerator) {
+    g.long_prefix_bitmap = kani::any();
+    g.prefix_chksum_bitmap = kani::any();
+    g.exact_match = kani::any();
+    g.chksum = kani::any();   // any retry iteration
+}
+
+/// C16: whatever the collision state, a generated alias is legal in every byte.
+#[kani::proof]
+#[kani::unwind(12)]
+#[kani::stub(core::slice::memchr::memchr, crate::verif_support::stubs::memchr)]
+#[kani::stub(core::slice::memchr::memrchr, crate::verif_support::stubs::memrchr)]
+fn alias_is_legal() {
+    let b: [u8; 8] = kani::any();
+    let len: usize = kani::any();
+    kani::assume(len >= 1 && len <= 8);
+    let name = any_accepted_name(&b, len);
+    let mut g = ShortNameGenerator::new(name);
+    any_gen_state(&mut g);
+    match g.generate() {
+        Ok(a) => {
+            assert!(alias_legal(&a));
+            kani::cover!(a[6] == b'~');
+            kani::cover!(a[1] == b'~');
+            kani::cover!(!g.lossy_conv && g.name_fits && a[0] == b[0]);
+        }
+        Err(_) => {
+            // failure only when every numeric tail of both forms is taken
+            assert!(g.long_prefix_bitmap & 0x1E == 0x1E && g.prefix_chksum_bitmap & 0x3FE == 0x3FE);
+            kani::cover!(true);
+        }
+    }
+}
+
+/// C16 (uniqueness lemma): after an existing raw short name `e` has been fed to the generator, the generator never
+/// produces `e`. By induction over the directory scan the alias differs from every existing entry.
+#[kani::proof]
+#[kani::unwind(12)]
+#[kani::stub(core::slice::memchr::memchr, crate::verif_support::stubs::memchr)]
+#[kani::stub(core::slice::memchr::memrchr, crate::verif_support::stubs::memrchr)]
+fn alias_never_equals_existing() {
+    let b: [u8; 8] = kani::any();
+    let len: usize = kani::any();
+    kani::assume(len >= 1 && len <= 8);
+    let name = any_accepted_name(&b, len);
+    let mut g = ShortNameGenerator::new(name);
+    any_gen_state(&mut g);
+    let e: [u8; SFN_SIZE] = kani::any();
+    g.add_existing(&e);
+    // monotone: feeding more entries only sets more bits
+    let e2: [u8; SFN_SIZE] = kani::any();
+    let before = (g.long_prefix_bitmap, g.prefix_chksum_bitmap, g.exact_match);
+    g.add_existing(&e2);
+    assert!(g.long_prefix_bitmap & before.0 == before.0 && g.prefix_chksum_bitmap & before.1 == before.1 && (g.exact_match || !before.2));
+    if let Ok(a) = g.generate() {
+        assert!(a != e);
+        assert!(a != e2);
+        kani::cover!(a[1] == b'~' || a[2] == b'~' || a[3] == b'~' || a[4] == b'~' || a[5] == b'~' || a[6] == b'~');
+    }
+}
+
+/// C16 (termination lemma): a retry changes the hash, clears both bitmaps and keeps everything else, so the next
+/// scan can only fail again if 13 more colliding entries exist for the NEW hash.
+#[kani::proof]
+#[kani::unwind(12)]
+#[kani::stub(core::slice::memchr::memchr, crate::verif_support::stubs::memchr)]
+#[kani::stub(core::slice::memchr::memrchr, crate::verif_support::stubs::memrchr)]
+fn alias_retry_progress() {
+    let b: [u8; 8] = kani::any();
+    let len: usize = kani::any();
+    kani::assume(len >= 1 && len <= 8);
+    let name = any_accepted_name(&b, len);
+    let mut g = ShortNameGenerator::new(name);
+    any_gen_state(&mut g);
+    let old = g.clone();
+    g.next_iteration();
+    assert!(g.chksum == old.chksum.wrapping_add(1));
+    assert!(g.long_prefix_bitmap == 0 && g.prefix_chksum_bitmap == 0);
+    assert!(g.short_name == old.short_name && g.basename_len == old.basename_len && g.name_fits == old.name_fits && g.lossy_conv == old.lossy_conv);
+    // with cleared bitmaps generation succeeds
+    assert!(g.generate().is_ok());
+    let x: u16 = kani::any();
+    let h = ShortNameGenerator::u16_to_hex(x);
+    let d = |v: u16| if v < 10 { b'0' + v as u8 } else { b'A' + (v as u8 - 10) };
+    assert!(h == [d(x >> 12), d((x >> 8) & 15), d((x >> 4) & 15), d(x & 15)]);
+}
+
+/// must-fail twin: claims the generator can never fail (it must, when all 13 tails are taken).
+#[kani::proof]
+#[kani::unwind(12)]
+#[kani::stub(core::slice::memchr::memchr, crate::verif_support::stubs::memchr)]
+#[kani::stub(core::slice::memchr::memrchr, crate::verif_support::stubs::memrchr)]
+fn twin_alias_generate_never_fails() {
+    let mut g = ShortNameGenerator::new("a b");
+    any_gen_state(&mut g);
+    assert!(g.generate().is_ok());
+}
+
+// ------------------------------------------------------------------------------------------- long-name slots (C03, C04, C15, C17, C19)
+
+#[cfg(feature = "lfn")]
+fn slot_bytes(e: &DirLfnEntryData) -> [u8; 32] {
+    let mut dev = TotDev::<32>::new([0xEE; 32]);
+    assert!(e.serialize(&mut dev).is_ok());
+    assert!(!dev.oob && dev.pos == 32);
+    dev.data
+}
+
+#[cfg(feature = "lfn")]
+fn lfn_gen_check<const MAXU: usize>() {
+    let units: [u16; MAXU] = kani::any();
+    let len: usize = kani::any();
+    kani::assume(len >= 1 && len <= MAXU);
+    let chk: u8 = kani::any();
+    let count = (len + 12) / 13;
+    let mut gen = LfnEntriesGenerator::new(&units[..len], chk);
+    assert!(gen.len() == count);
+    let mut builder = LongNameBuilder::new();
+    let mut i = 0;
+    while i < count {
+        let e = match gen.next() { Some(e) => e, None => { assert!(false); return; } };
+        let raw = slot_bytes(&e);
+        // independent parse of the raw slot
+        let ord = (count - i) as u8;
+        assert!(raw[0] == if i == 0 { ord | 0x40 } else { ord });
+        assert!(raw[11] == 0x0F && raw[12] == 0 && raw[13] == chk && raw[26] == 0 && raw[27] == 0);
+        let u: usize = kani::any();
+        kani::assume(u < 13);
+        let pos = (count - i - 1) * 13 + u;
+        let exp = if pos < len { units[pos] } else if pos == len { 0 } else { 0xFFFF };
+        assert!(spec::lfn_unit(&raw, u) == exp);
+        builder.process(&e);
+        i += 1;
+    }
+    assert!(gen.next().is_none());
+    // decode side: the builder returns exactly the original units (lossless, including surrogates and 0xFFFF-free names)
+    let sfn: [u8; SFN_SIZE] = kani::any();
+    kani::assume(spec::lfn_checksum(&sfn) == chk);
+    builder.validate_chksum(&sfn);
+    let out = builder.into_buf();
+    // names ending in 0x0000/0xFFFF units cannot be represented (they look like padding); the validator never
+    // produces them from a str, so they are excluded
+    kani::assume(units[len - 1] != 0 && units[len - 1] != 0xFFFF);
+    assert!(out.len() == len);
+    let k: usize = kani::any();
+    kani::assume(k < len);
+    assert!(out.as_ucs2_units()[k] == units[k]);
+    kani::cover!(len == 13);
+    kani::cover!(len == MAXU);
+    kani::cover!(count == 2 && len == 14);
+}
+/// C03/C04/C15/C19: LfnEntriesGenerator output, parsed independently: slot count, descending order with 0x40 on
+/// the first, attribute 0x0F, zero type/cluster, checksum in every slot, 0x0000 terminator then 0xFFFF padding;
+/// LongNameBuilder decodes the same slots back to the identical units. Run in both builds (alloc / fixed buffer).
+#[cfg(feature = "lfn")]
+#[kani::proof]
+#[kani::unwind(270)]
+fn lfn_generate_and_decode_2slots() { lfn_gen_check::<26>(); }
+#[cfg(feature = "lfn")]
+#[kani::proof]
+#[kani::unwind(270)]
+fn lfn_generate_and_decode_3slots() { lfn_gen_check::<39>(); }
+
+#[cfg(feature = "lfn")]
+fn any_lfn_slot() -> DirLfnEntryData {
+    let mut e = DirLfnEntryData::new(kani::any(), kani::any());
+    let part: [u16; LFN_PART_LEN] = kani::any();
+    e.copy_name_from_slice(&part);
+    e
+}
+
+/// Builder invariant: nothing pending (index 0), or 1 <= index <= k <= 20 with a buffer of exactly 13*k units.
+#[cfg(all(feature = "lfn", not(feature = "alloc")))]
+fn any_builder_state() -> LongNameBuilder {
+    let k: usize = kani::any();
+    kani::assume(k <= MAX_LONG_DIR_ENTRIES);
+    let index: u8 = kani::any();
+    kani::assume((index as usize) <= k);
+    LongNameBuilder { buf: LfnBuffer { ucs2_units: kani::any(), len: k * LFN_PART_LEN }, chksum: kani::any(), index }
+}
+#[cfg(all(feature = "lfn", not(feature = "alloc")))]
+fn builder_inv(b: &LongNameBuilder) -> bool {
+    b.buf.len % LFN_PART_LEN == 0 && b.buf.len <= LONG_NAME_BUFFER_LEN && (b.index as usize) * LFN_PART_LEN <= b.buf.len
+}
+
+/// C17 (inductive step, fixed-buffer build): from ANY builder state satisfying the invariant, processing ANY slot
+/// neither panics nor indexes out of bounds, and the invariant holds again. Covers runs of any length.
+#[cfg(all(feature = "lfn", not(feature = "alloc")))]
+#[kani::proof]
+#[kani::unwind(264)]
+fn lnb_step_inductive() {
+    let mut b = any_builder_state();
+    kani::assume(builder_inv(&b));
+    let e = any_lfn_slot();
+    b.process(&e);
+    assert!(builder_inv(&b));
+    kani::cover!(b.index == 20);
+    kani::cover!(b.index == 0 && e.order() & 0x40 == 0);
+}
+
+/// C17 (fixed-buffer build): finishing from ANY invariant state yields at most 255 units, and an empty name unless
+/// the run was complete (index 1) and the checksum matched.
+#[cfg(all(feature = "lfn", not(feature = "alloc")))]
+#[kani::proof]
+#[kani::unwind(264)]
+fn lnb_finish_bounded() {
+    let mut b = any_builder_state();
+    kani::assume(builder_inv(&b));
+    let complete = b.index == 1;
+    let chk = b.chksum;
+    let sfn: [u8; SFN_SIZE] = kani::any();
+    b.validate_chksum(&sfn);
+    let out = b.into_buf();
+    assert!(out.len() <= 255);
+    if !(complete && spec::lfn_checksum(&sfn) == chk) { assert!(out.len() == 0); }
+    kani::cover!(out.len() == 255);
+    kani::cover!(out.len() == 0 && complete);
+}
+
+#[cfg(feature = "lfn")]
+fn lnb_sequence_check(nslots: usize) {
+    // slots in on-disk order followed by a short entry; orders restricted to 1..=3 (| 0x40)
+    let s0 = any_lfn_slot();
+    let s1 = any_lfn_slot();
+    let s2 = any_lfn_slot();
+    let slots = [s0, s1, s2];
+    let mut i = 0;
+    while i < nslots { kani::assume(slots[i].order() & 0x1F <= 3 && slots[i].order() & 0xA0 == 0); i += 1; }
+    let sfn: [u8; SFN_SIZE] = kani::any();
+    let mut b = LongNameBuilder::new();
+    i = 0;
+    while i < nslots { b.process(&slots[i]); i += 1; }
+    b.validate_chksum(&sfn);
+    let out = b.into_buf();
+    assert!(out.len() <= 39);
+    // reference: the run starts at the LAST slot carrying the 0x40 flag
+    let mut j = nslots;
+    i = 0;
+    while i < nslots { if slots[i].order() & 0x40 != 0 { j = i; } i += 1; }
+    let mut well_formed = j < nslots;
+    let mut n = 0usize;
+    if well_formed {
+        n = (slots[j].order() & 0x1F) as usize;
+        if n == 0 || n != nslots - j { well_formed = false; }
+    }
+    if well_formed {
+        let chk = spec::lfn_checksum(&sfn);
+        i = j;
+        while i < nslots {
+            let expect_ord = (n - (i - j)) as u8;
+            if slots[i].order() & 0x1F != expect_ord || slots[i].checksum() != chk { well_formed = false; }
+            if i > j && slots[i].order() & 0x40 != 0 { well_formed = false; }
+            i += 1;
+        }
+    }
+    if !well_formed {
+        // a broken run falls back to the short name: no partial or foreign long name
+        assert!(out.len() == 0);
+    } else {
+        // the name consists of the run's units in order; only trailing 0x0000 / 0xFFFF units are stripped
+        assert!(out.len() <= n * 13);
+        let k: usize = kani::any();
+        kani::assume(k < n * 13);
+        let slot = &slots[nslots - 1 - k / 13];
+        let mut part = [0u16; 13];
+        slot.copy_name_to_slice(&mut part);
+        let u = part[k % 13];
+        if k < out.len() { assert!(out.as_ucs2_units()[k] == u); } else { assert!(u == 0 || u == 0xFFFF); }
+        if out.len() > 0 { let l = out.as_ucs2_units()[out.len() - 1]; assert!(l != 0 && l != 0xFFFF); }
+    }
+    kani::cover!(well_formed && n == nslots);
+    kani::cover!(well_formed && j > 0);           // orphan slots before the run are ignored
+    kani::cover!(!well_formed && j < nslots);
+}
+/// C17/C19: ANY sequence of up to 2 / 3 long-name slots (orders 1..3) + short entry, against an independent
+/// definition of a well-formed run: broken => empty (short-name fallback); well-formed => exactly the run's units.
+#[cfg(feature = "lfn")]
+#[kani::proof]
+#[kani::unwind(270)]
+fn lnb_sequences_2() { lnb_sequence_check(2); }
+#[cfg(feature = "lfn")]
+#[kani::proof]
+#[kani::unwind(270)]
+fn lnb_sequences_3() { lnb_sequence_check(3); }
+
+/// must-fail twin: claims a run is always accepted.
+#[cfg(feature = "lfn")]
+#[kani::proof]
+#[kani::unwind(270)]
+fn twin_lnb_always_yields_name() {
+    let s = any_lfn_slot();
+    kani::assume(s.order() == 0x41);
+    let sfn: [u8; SFN_SIZE] = kani::any();
+    let mut b = LongNameBuilder::new();
+    b.process(&s);
+    b.validate_chksum(&sfn);
+    assert!(b.into_buf().len() > 0);
+}
